@@ -25,7 +25,9 @@ import (
 	"verif/sim/plan"
 )
 
-const (
+// verifDir is where this copy of the framework lives (the check script passes
+// it as VERIF_HOME, so that a snapshot of /verif runs itself).
+var (
 	verifDir = "/verif"
 	simDir   = "/verif/sim"
 )
@@ -43,6 +45,12 @@ var (
 )
 
 func setupPaths() error {
+	if v := os.Getenv("VERIF_HOME"); v != "" {
+		verifDir = v
+		simDir = filepath.Join(v, "sim")
+		outRoot = v
+		buildDir = filepath.Join(v, ".build")
+	}
 	if v := os.Getenv("VERIF_SCRATCH"); v != "" {
 		outRoot = v
 		buildDir = filepath.Join(v, ".build")
